@@ -19,6 +19,10 @@ pub use crate::sink::AttachGlobalEntrySinkExt;
 pub mod entry;
 pub mod format;
 pub(crate) mod rate_limit;
+// verification-only wrappers, see the module docs
+#[cfg(all(metrique_verif_loom, feature = "background-queue"))]
+#[doc(hidden)]
+pub mod verif_tokio;
 pub mod sample;
 pub mod sink;
 pub mod stream;
